@@ -1,5 +1,6 @@
 /-
-The witnesses of the known findings KF-C06-1…12 / KF-C07-1…6 as Lean values (the same histories as
+The witnesses of the known findings (KF-C06-1, 2, 4, 6, 9, 10, 11, 12 / KF-C07-1…6) and of the repaired ones
+(KF-C06-3, 5, 7, 8: regression cases) as Lean values (the same histories as
 known_findings.d/C06.json, C07.json and corpus/C06, corpus/C07), evaluated on the executable model.
 Bytes: a = 97, b = 98, c = 99, x = 120, y = 121, '/' = 47, '.' = 46, "1" = 49, "2" = 50.
 -/
@@ -45,18 +46,18 @@ def r1 : List (Bytes × Option Bytes) := [(a, none)]
 def h1 : List Op := [.remove a]
 -- KF-C06-2  write 1 b/c/b x ; removeall 1 b ; commit
 def h2 : List Op := [.writeFile [98, 47, 99, 47, 98] [120], .removeAll b]
--- KF-C06-3  write 1 a/b/ x ; commit
+-- KF-C06-3 (repaired)  write 1 a/b/ x ; commit
 def h3 : List Op := [.writeFile [97, 47, 98, 47] [120]]
 -- KF-C06-4  mkdir 0 a/b | copy 1 a c ; commit
 def r4 : List (Bytes × Option Bytes) := [([97, 47, 98], none)]
 def h4 : List Op := [.copy a c]
--- KF-C06-5  copy 1 c a/b ; commit
+-- KF-C06-5 (repaired)  copy 1 c a/b ; commit
 def h5 : List Op := [.copy c [97, 47, 98]]
 -- KF-C06-6  mkdir 1 a/b ; remove 1 a/b ; commit
 def h6 : List Op := [.mkdirAll [97, 47, 98], .remove [97, 47, 98]]
--- KF-C06-7  write 1 a x ; copy 1 a a     (never returns in Go; only the predicate is evaluated here)
+-- KF-C06-7 (repaired)  write 1 a x ; copy 1 a a     (did not return in Go)
 def h7 : List Op := [.writeFile a [120], .copy a a]
--- KF-C06-8  removeall 1 "" ; write 1 a x ; commit
+-- KF-C06-8 (repaired)  removeall 1 "" ; write 1 a x ; commit
 def h8 : List Op := [.removeAll [], .writeFile a [120]]
 -- KF-C06-9 = KF-C07-3  write 0 a x | write 1 a/b y ; commit
 def r9 : List (Bytes × Option Bytes) := [(a, some [120])]
